@@ -3,15 +3,15 @@ CONSTANTS
   Seeds <- MCSeeds
   Gens <- MCGens
   GenSeed <- MCTwins
-  Entries <- MCEntries3
-  Random <- MCRandom3
-  Seedable <- MCSeed3
-  Backends <- MCOneBackend
+  Entries <- MCEntries
+  Random <- MCRandom
+  Seedable <- MCSeedRand
+  Backends <- MCBackends
   InitBackend = "core"
   Objs <- MCNoObjs
   ObjSeed <- MCObjSeed
   ObjEntries <- MCSeedRand
-  MaxOps = 4
+  MaxOps = 5
   Variant = "spec"
 INVARIANT TypeOK
 INVARIANT SameSeedSameResult
